@@ -4,6 +4,7 @@ import PptxModel.Model.Color
 import PptxModel.Model.Fill
 import PptxModel.Model.Adjust
 import PptxModel.Model.Spacing
+import PptxModel.Model.Autofit
 namespace Pptx.Drv.C09
 open Pptx Pptx.Proto Pptx.PropStore Pptx.SimpleTypes
 
@@ -211,7 +212,33 @@ def spcRun (s : St) : List Op → List String
     s!"{match r with | .ok => "ok" | .valueError => "V"}|{encSt s'}|{readings s'}" :: spcRun s' rest
 end Spc
 
+/-! `c09.fit`: the autofit children `k/scale/reduc,...` (`k` = 0 noAutofit, 1 normAutofit, 2 spAutoFit; `n` = no attribute; `!` none),
+    assignments `n` / `0|1|2` / `x` (no member); per assignment: verdict, children as stored, the reading -/
+namespace Fit
+open Pptx.Autofit
+def kOf : Nat → Option Kind | 0 => some .no | 1 => some .norm | 2 => some .sp | _ => none
+def kNo : Kind → Nat | .no => 0 | .norm => 1 | .sp => 2
+def decEl (t : String) : Option El :=
+  match t.splitOn "/" with
+  | [k, a, b] => do let k ← k.toNat?; let k ← kOf k; let a ← Spc.on a; let b ← Spc.on b; pure ⟨k, a, b⟩
+  | _ => none
+def encSt (s : St) : String :=
+  if s.isEmpty then "!" else ",".intercalate (s.map fun e => s!"{kNo e.kind}/{Spc.sn e.scale}/{Spc.sn e.reduc}")
+def decVal (t : String) : Option Val :=
+  if t == "n" then some .none else if t == "x" then some .other else do let k ← t.toNat?; let k ← kOf k; pure (.member k)
+def rd (s : St) : String := match read s with | none => "n" | some k => toString (kNo k)
+def fitRun (s : St) : List Val → List String
+  | [] => []
+  | v :: rest =>
+    let (s', ok) := step s v
+    s!"{if ok then "ok" else "V"}|{encSt s'}|{rd s'}" :: fitRun s' rest
+end Fit
+
 def handle : List String → Option String
+  | ["c09.fit", start, ops] => do
+      let s ← if start == "!" then some [] else (start.splitOn ",").mapM Fit.decEl
+      let ops ← if ops == "!" then some [] else (ops.splitOn ";").mapM Fit.decVal
+      pure (";".intercalate (s!"start|{Fit.encSt s}|{Fit.rd s}" :: Fit.fitRun s ops))
   | ["c09.spc", start, ops] => do
       let s ← Spc.decSt start
       let ops ← if ops == "!" then some [] else (ops.splitOn ";").mapM Spc.decOp
